@@ -14,7 +14,7 @@ CHECKS = {
     'C01': ("Every path of setup_layer / tear_down_unneeded / run_layer / Runner.run_tests obeys the set-up/tear-down "
             "discipline (who-may-call, guard, bases first, mark only after setUp returned, forget in every exit, order "
             "gather->tear-down->set-up->run, no run after CanNotTearDown, final optional tear-down), plus the premises "
-            "of the bases-first argument for gather_layers/order_by_bases. Exhaustive over the CFG with exception edges; "
+            "of the bases-first argument for gather_layers/order_by_bases. CanNotTearDown raised by tear_down_unneeded leaves run_layer (no handler on the way completes normally). Exhaustive over the CFG with exception edges; "
             "not decided: trace-level 'exactly', algorithmic facts beyond the stated premises.",
             "CFG path/dominance rules with exception edges + who-may-call", "4/C01"),
     'C02': ("Verdict data flow: the final verdict expression cannot be masked and is false when nothing went wrong; no "
@@ -32,13 +32,13 @@ CHECKS = {
             "typestate exploration of all TestResult callback sequences (both unittest protocol variants, all option "
             "combinations) shows no callback fails on its own state; every formatter method used exists with a compatible "
             "signature on all formatter classes; summary, continuation of the layer loop and final tear-down on all paths. "
-            "Not decided: errors inside printing itself or outside the raise-source catalogue.",
+            "The run-wide totals line is emitted unless exactly one layer was turned to (guards evaluated over the layer count), and the layer_setup hooks dominate run_layer. Not decided: errors inside printing itself or outside the raise-source catalogue.",
             "exception-escape analysis + typestate exploration (abstract interpretation of the callbacks) + interface cross-check", "4/C04"),
     'C05': ("Per-test hooks: on every result-event sequence of both unittest protocol variants testSetUp/testTearDown are "
             "balanced, ordered (bases first / exact reverse) and complete; the layer list is order_by_bases(gathered "
             "layers of this result's layer); hooks have one call site each, filtered only by hasattr of the hook called; "
             "the post-mortem loop that drives the result itself calls stopTest after every startTest on every exit (CFG "
-            "with exception edges). Not decided: a hook raising half-way through the list.",
+            "with exception edges). After every test the test object has the attributes it started with (typestate of test.__dict__ in the callbacks, or the copy/clear/update bracket of the loop of run_tests). Not decided: a hook raising half-way through the list.",
             "typestate exploration over the unittest driver protocol + def-use provenance", "4/C05"),
     'C07': ("Wire agreement between child report writer and parent reader (header fields by role, body order, one line "
             "per entry, line-break discipline), fail-closed reader on every exceptional exit, channel separation and "
@@ -70,7 +70,7 @@ CHECKS = {
             "completed iteration inside the repeat loop; a completed layer is popped exactly once, one thread per queued "
             "layer started once, empty first layer iff -j N parent; child command line grammar agrees between writer and "
             "reader; feature order Find < Shuffle < Filter < Listing; the suite walk visits every member unconditionally; a "
-            "child keeps exactly the layer whose name equals --resume-layer. Not decided: equality of the executed multiset with "
+            "child keeps exactly the layer whose name equals --resume-layer. The positional module/test filters reach options.module/options.test in all 20 cases of a finite domain (guard evaluation). Not decided: equality of the executed multiset with "
             "an independent computation of the selection.",
             "who-may-write tables + CFG once-per-iteration rules + call-graph reachability + writer/reader agreement", "4/C03"),
     'C06': ("-j N structure: the only thread start is guarded by len(running) < processes in a while loop, started "
@@ -97,26 +97,26 @@ CHECKS = {
             "layer_sort_key); the key is pure (names and bases, no set iteration, no id/hash); premises of the bases-first "
             "and unit-first arguments (pre-order gather over all bases, one reversal, first-occurrence de-duplication, "
             "unit layer excluded from the key, descending sort); single ordering source; a child keeps exactly its own "
-            "layer (each layer once across processes). NOT decided: that the order is "
+            "layer (each layer once across processes). resume_tests starts the per-layer threads in creation order over the ordered layers parameter (fill one end, drain the other). NOT decided: that the order is "
             "bases-first/unit-first for every graph (induction over data), tie behaviour.",
             "order-provenance rules + structural premises", "4/C10"),
     'C11': ("Shuffle: the per-layer list is list(suite) modified only by mirrored swap assignments and stored back "
             "under the same key; layers visited in sorted order; local random.Random seeded from self.seed, only seed()/"
             "random() used; feature order Find < Shuffle < Filter < Listing and the shuffling hook runs no later than the "
             "filtering hook in the hook sequence of Runner.run; clock-derived seed recorded on the options "
-            "and forwarded to children; seed always reported. Not decided: index arithmetic of the Fisher-Yates step, "
+            "and forwarded to children; seed always reported. The shuffle hook shuffles on every normal path and no option other than the shuffle options decides whether a layer is shuffled or a random number drawn (same order in listing, -j parent and children). Not decided: index arithmetic of the Fisher-Yates step, "
             "the float stream of random().",
             "mutation-shape rule (swap-only) + who-may-call on the RNG + def-use of the seed", "4/C11"),
     'C14': ("Discovery structure: directory list sorted in place before every walk step is yielded and only filtered "
             "afterwards, files yielded from sorted(); de-duplication by path; a module rejected by --module can never "
             "reach import_name (CFG with the predicate fixed to false), who-may-import table; in-place pruning by "
             "identifier/IGNORE_FOLDERS/ignore_dir before the walk resumes; --package restricts the walk; prefixes "
-            "sorted longest first. Not decided: the file/package predicate on arbitrary trees, symlinks.",
+            "sorted longest first. Prefixes are matched at a directory boundary (stored with the separator <-> startswith / cut length of the consumers); 32-case decision table of which files of a directory are recorded as test modules. Not decided: symlinks, what the regexes match on concrete names.",
             "order-provenance + CFG reachability under a fixed predicate value + who-may-call", "4/C14"),
     'C15': ("Stale bytecode: the only destructive file-system call reachable from discovery is the os.unlink of "
             "remove_stale_bytecode (all destructive sites of the package tabulated); nothing is walked or deleted under "
             "keepbytecode, usecompiled implies it; the unlink guard is exactly suffix in {.pyc,.pyo} and not source-"
-            "beside-it; target is join(dirname, file) of the same walk step; __pycache__ pruned; loops complete. Not "
+            "beside-it; target is join(dirname, file) of the same walk step; __pycache__ pruned; no continue of the walk loop skips a directory (other than for an empty listing); loops complete. Not "
             "decided: name edge cases, case-folding file systems.",
             "effect ownership over the call graph + guard-literal analysis", "4/C15"),
     'C17': ("XML: every test-derived string reaching Element.set/.text passes a sanitiser whose regex character class "
@@ -142,7 +142,7 @@ CHECKS = {
             "from one counter, every low-link store is a min-update of the CURRENT parent (top of the ancestor list at "
             "that point on every path) with the returned child's low or a stacked neighbour's number, such an update is "
             "passed on every return to a parent (unless root) and for every stacked neighbour, the component is popped "
-            "down to exactly the root; every set kept in the neighbour map is an object created by the graph itself "
+            "down to exactly the root (pop loop or index scan + slice removal); the return visit is selected by identity with a fresh sentinel scheduled below the neighbours; every set kept in the neighbour map is an object created by the graph itself "
             "(freshness over reaching definitions, no alias of a caller's set). NOT decided and not claimed: that these conditions are sufficient, i.e. that the "
             "components are exactly the SCCs for every graph (algorithm correctness over data).",
             "forward must-alias data-flow analysis over the CFG + contradiction rule on map accesses + structural invariants", "4/C20"),
